@@ -25,7 +25,7 @@ ASSUMPTIONS = ["the final meter day (open-ended last interval) is excluded", "me
                "'readings of a day' are the feed timestamps inside the meter day; a DST day has 23 or 25 hourly readings"]
 REQUIRED_REACH = {"dataset.judged": 40, "day.mean_compared": 4000, "day.expected_missing": 100, "day.exactly_half": 20, "counts.days_compared": 1500,
                   "feed.half_hourly": 8, "day.dst": 8, "day.dst_around_half": 4, "hook.check_data_sufficiency": 40, "meter.zero_reads": 10, "meter.days_without_usage": 20, "feed.starts_at_another_hour_than_the_meter_reads": 8,
-                  "entry.temperature_only_from_series": 16, "entry.temperature_only_feed_in_another_zone_than_requested": 10}
+                  "entry.temperature_only_from_series": 16, "entry.frame_with_datetime_column": 6, "entry.temperature_only_feed_in_another_zone_than_requested": 10}
 
 VIOL = []
 SUFF = []
@@ -179,7 +179,13 @@ def run_case(spec):
             df["observed"] = np.nan
             obs = meter if not spec["cls"].startswith("billing") else meter.iloc[::30] * 30
             df.loc[df.index.isin(obs.index), "observed"] = obs.reindex(df.index[df.index.isin(obs.index)]).values
+            if spec["entry"] == "frame-datetime-column":
+                # the documented alternative to a DatetimeIndex: a tz-aware 'datetime' column (local zone)
+                df = df.rename_axis("datetime").reset_index()
+                I.reach("entry.frame_with_datetime_column")
             data = cls(df, is_electricity_data=True)
+            if str(data.df.index.tz) != str(tz):
+                add("data-object-not-in-the-frames-zone:%s" % spec["cls"].split("-")[0], "frame zone %s, data object zone %s (%s entry)" % (tz, data.df.index.tz, spec["entry"]), **tag)
     except Exception as e:
         import traceback
         tb = traceback.extract_tb(e.__traceback__)
@@ -304,7 +310,15 @@ def run_nometer_case(spec):
     tag = {k: spec[k] for k in ("cls", "entry", "tz", "feed_tz", "minutes", "pattern", "start", "days")}
     kw = {"tzinfo": zoneinfo.ZoneInfo(tz)} if tz else {}
     try:
-        data = cls.from_series(None, temp if spec["n"] % 2 else temp.to_frame("temperature"), is_electricity_data=True, **kw)
+        if spec.get("via", "from_series") == "from_series":
+            data = cls.from_series(None, temp if spec["n"] % 2 else temp.to_frame("temperature"), is_electricity_data=True, **kw)
+        else:
+            # temperature-only frame in the site's zone (index, or the documented tz-aware 'datetime' column)
+            fdf = temp.tz_convert(site).to_frame("temperature")
+            if spec["via"] == "frame-datetime-column":
+                fdf = fdf.rename_axis("datetime").reset_index()
+                I.reach("entry.frame_with_datetime_column")
+            data = cls(fdf, is_electricity_data=True)
     except Exception as e:
         import traceback
         tb = traceback.extract_tb(e.__traceback__)
@@ -419,7 +433,7 @@ def gen_cases(tier, seed):
         start = str((pd.Timestamp("2019-01-01") + pd.Timedelta(days=int(rng.integers(0, 700)))).date()) if rng.random() < 0.6 else str(rng.choice(["2019-03-01", "2019-10-20", "2020-03-20", "2019-09-25"]))
         if pats[i % len(pats)] == "dst_half":
             start = str(rng.choice(["2019-03-01", "2019-10-15", "2020-03-01", "2019-09-20", "2020-10-20"]))
-        cases.append(dict(kind="dataset", cls=cls, entry=str(rng.choice(["series", "frame"], p=[0.7, 0.3])), tz=tz, feed_tz=ftz, minutes=minutes,
+        cases.append(dict(kind="dataset", cls=cls, entry=str(rng.choice(["series", "frame", "frame-datetime-column"], p=[0.6, 0.2, 0.2])), tz=tz, feed_tz=ftz, minutes=minutes,
                           meter_hour=0 if rng.random() < 0.8 or cls.startswith("billing") else int(rng.choice([6, 7, 12])), pattern=pats[i % len(pats)],
                           start=start, days=int(rng.choice([40, 70, 100])) if not cls.startswith("billing") else 120, n=i))
         if i % 3 == 2 and not cls.startswith("billing"):
@@ -440,4 +454,6 @@ def gen_cases(tier, seed):
                           minutes=60 if j % 3 else 30, meter_hour=0, pattern=pats[(j + j // len(pats)) % len(pats)],
                           start=["2019-03-01", "2019-06-10", "2019-10-15", "2020-03-20", "2020-07-01", "2019-09-25"][(j + j // 6) % 6], start_hour_utc=[0, 5, 13, 22][j % 4],
                           days=int(rng.choice([40, 60, 75])), n=1000 + j))
+        if j % 3 == 2 and cases[-1]["cls"] == "daily-reporting" and cases[-1]["tz"]:
+            cases[-1]["via"] = ["frame-datetime-column", "frame"][(j // 3) % 2]
     return cases
